@@ -298,7 +298,7 @@ async fn main() {
     // program panics are caught by the runtime wrapper; keep them quiet, but show harness panics
     std::panic::set_hook(Box::new(|i| {
         let loc = i.location().map(|l| l.file().to_string()).unwrap_or_default();
-        if loc.contains("/verif/") || loc.starts_with("rig") || loc.starts_with("vcommon") {
+        if std::env::var("VERIF_ALL_PANICS").is_ok() || loc.contains("/verif/") || loc.starts_with("rig") || loc.starts_with("vcommon") {
             eprintln!("HARNESS PANIC: {}", i);
         }
     }));
